@@ -3,17 +3,23 @@
 Model: coq/theories/V2/Bind.v (create_flow_instance, _start_flow, call syntax -> `$i`/named,
 StartFlow/FlowStarted/FlowFinished argument dicts, Assignment/Global/Return, per-instance
 contexts on a heap of cells); theorems: Props/C08.v.
+Tie (T): translator/gen_c08.py reads expansion.py and emits Gen/C08Consts.v (does the caller's
+FlowStarted match carry the call arguments?), so the model is right for the source as it is and
+for the candidate repair fixes/C08-flowstarted-match.patch.
 Tie (X): (a) function level - the real create_flow_instance + _start_flow on real FlowConfig
 objects (signatures parsed by the repository's parser) and generated event_arguments dicts,
 `arguments` and `context` compared item by item, in order, with the model evaluated inside Coq;
 (b) end to end - generated programs (signatures x call forms x value types, nested, recursive,
-sibling instances, globals, ill-formed calls) run by the real interpreter; echoed events, the
-fate of `main`, every instance's final context and the global context compared with the
-model's big-step interpreter (V2/BindRun.v, built on Bind.step) evaluated inside Coq.
+sibling instances, globals, ill-formed calls) run by the real interpreter in child processes under
+a shell timeout; echoed events, the fate of `main`, every instance's final context and the global
+context compared with the model's big-step interpreter (V2/BindRun.v, built on Bind.step)
+evaluated inside Coq.
 Oracle: the property text re-stated in Python (binding rule, return value, locals unchanged
-elsewhere) applied to the implementation's observations.
-Observations O1-O5 (ill-formed calls etc.) are counted and reported in the evidence, not
-treated as violations.
+elsewhere, recursion) applied to the implementation's observations (families A, G, R and the
+function level).
+Observations O1-O4 (ill-formed calls, missing return) are counted and reported in the evidence,
+not treated as violations.  O5 (a WELL-FORMED await hangs when the callee changes a global that an
+argument mentions) is a finding, listed in KNOWN_FINDINGS.txt.
 """
 from __future__ import annotations
 
@@ -859,7 +865,7 @@ def run_impl(jobs, timeout):
     """Run the jobs on the real implementation in parallel child processes, each under a timeout.
     Returns a list of results aligned with jobs (None = child failed before that job)."""
     if not jobs:
-        return []
+        return [], []
     nw = min(C.NPROC, 12, max(1, len(jobs) // 20))
     chunks = [list(range(i, len(jobs), nw)) for i in range(nw)]
     tmp = tempfile.mkdtemp(prefix="c08_", dir=os.path.join(C.BUILD) if os.path.isdir(C.BUILD) else None)
